@@ -4,7 +4,6 @@ package c06
 import (
 	"errors"
 	"fmt"
-	"sort"
 	"strings"
 	"testing"
 	"time"
@@ -640,22 +639,22 @@ func TestFaultEnumeration(t *testing.T) {
 		{Mode: "concurrent", NAct: 1, Revoke: true, Gran: "code", QuotaFull: -1},
 	} {
 		complete := true
+		dead := 1 << 30 // smallest write index seen that no schedule reaches
 		for failAt := 0; failAt < 40; failAt++ {
 			job++
-			c := base
-			c.FailAt = failAt
-			// does this write index exist at all? (first schedule)
-			if !vkit.Mine(job) {
+			if !vkit.Mine(job) || failAt > dead {
 				continue
 			}
+			c := base
+			c.FailAt = failAt
 			d := newDFS(nil, -1)
-			any := false
+			fired := false
 			for {
 				o := runConcurrent(c, d.Choose)
 				cc := c
 				cc.Picks = d.Trace()
 				if o.failedOp != "" {
-					any = true
+					fired = true
 				}
 				report(t, cc, o)
 				total++
@@ -666,7 +665,9 @@ func TestFaultEnumeration(t *testing.T) {
 			if d.Diverged > 0 {
 				complete = false
 			}
-			_ = any
+			if !fired {
+				dead = failAt
+			}
 		}
 		vkit.Exhaustive(fmt.Sprintf("single-write-fault x schedules:%dA/rev=%v/2nodes=%v/gran=%s", base.NAct, base.Revoke, base.SecondNode, base.Gran), complete)
 	}
@@ -711,4 +712,3 @@ func TestReplay(t *testing.T) {
 	report(t, c, o)
 }
 
-var _ = sort.Strings
